@@ -232,11 +232,41 @@ def check_ctor(rep, tmod, f, facts):
         rep.ob('C19.ctor', f'{k} = {facts[k]!r}', ok)
         if not ok:
             rep.violate('C19.ctor', tmod, f, f're.split({facts[k]!r}, ...)', f'TechLib.__init__: {k} regex {facts[k]!r} differs from the documented DSL syntax {want!r}', node=f)
-    ok = rx(facts['strip'][0]) == rx(r'^\s+') and facts['strip'][1] == '' and facts['name_sep'] == ' '
-    rep.ob('C19.ctor', 'leading blanks stripped, name ends at first blank', ok)
-    if not ok:
-        rep.violate('C19.ctor', tmod, f, 'name/body separation', 'TechLib.__init__: cell name must be the text up to the first blank after stripping leading white space', node=f)
-    ok = facts['bench_arg'] == 'c_str[name_len:]' and facts.get('split_braces_arg') == 'c.name' and facts.get('elim')
+    if 'chunk_eval' in facts:
+        # evaluated: for every chunk of every library text the constructor's own statements must yield the documented
+        # (name = text up to the first blank after stripping leading white space, body = the rest; skipped iff there is no such blank)
+        _, libs = techdsl.library_sources(rep.repo)
+        nchunks = 0
+        bad = None
+        for lib, text, _node in libs:
+            for chunk in re.split(facts['split_cells'], text):
+                nchunks += 1
+                st = re.sub(r'^\s+', '', chunk)
+                k = st.find(' ')
+                want = None if k <= 0 else (st[:k], st[k:])
+                try:
+                    got = techdsl.chunk_name_body(facts, chunk)
+                except (IndexError, KeyError, TypeError, ValueError) as e:
+                    got = f'{type(e).__name__}: {e}'
+                if got is not None and want is not None and not isinstance(got, str):
+                    same = got[0] == want[0] and got[1].strip() == want[1].strip()
+                else:
+                    same = got == want
+                if not same and bad is None:
+                    bad = (lib, chunk.strip()[:60], want, got)
+        ok = bad is None
+        rep.ob('C19.ctor', f'name/body separation evaluated on all {nchunks} chunks of the library texts', ok, evals=nchunks)
+        if not ok:
+            rep.violate('C19.ctor', tmod, f, 'name/body separation', f'TechLib.__init__: for the {bad[0]} entry {bad[1]!r} the constructor yields {bad[3] if bad[3] is None or isinstance(bad[3], str) else (bad[3][0], bad[3][1][:40])} '
+                        f'but the cell syntax says {None if bad[2] is None else (bad[2][0], bad[2][1][:40])} (name up to the first blank, the rest is the body; entries without a body are cells too)',
+                        witness={'library': bad[0], 'entry': bad[1]}, node=f)
+        ok = facts.get('split_braces_arg') == 'c.name' and facts.get('elim')
+    else:
+        ok = rx(facts['strip'][0]) == rx(r'^\s+') and facts['strip'][1] == '' and facts['name_sep'] == ' '
+        rep.ob('C19.ctor', 'leading blanks stripped, name ends at first blank', ok)
+        if not ok:
+            rep.violate('C19.ctor', tmod, f, 'name/body separation', 'TechLib.__init__: cell name must be the text up to the first blank after stripping leading white space', node=f)
+        ok = facts['bench_arg'] == 'c_str[name_len:]' and facts.get('split_braces_arg') == 'c.name' and facts.get('elim')
     rep.ob('C19.ctor', 'body parsed as bench, 1:1 forks eliminated, names expanded from c.name', ok)
     if not ok:
         rep.violate('C19.ctor', tmod, f, 'bench.parse(c_str[name_len:])', 'TechLib.__init__: body after the name must be parsed as bench code and the name expanded', node=f)
